@@ -607,7 +607,7 @@ _AUTO_PREFIX = None
 
 def auto_prefix():
     """what the live exporter writes before the counter in the name of an unnamed analysis (the property leaves the spelling
-    free; the model takes it from the regenerated table Hdl21Gen.C17Tables.auto_name_prefix)"""
+    free; the model takes it from the regenerated table Hdl21Gen.C17Names.auto_name_prefix)"""
     global _AUTO_PREFIX
     if _AUTO_PREFIX is None:
         tb = h.Module(name="AutoNameTb")
